@@ -14,6 +14,7 @@ import (
 	an "github.com/benoitkugler/gomacro/analysis"
 	ansql "github.com/benoitkugler/gomacro/analysis/sql"
 	gen "github.com/benoitkugler/gomacro/generator"
+	gensql "github.com/benoitkugler/gomacro/generator/sql"
 )
 
 const govcModelSrc = `package m
@@ -23,6 +24,13 @@ type IdB int64
 type IdC int64
 
 type Tags []string
+
+// all-integer struct (a composite type in the schema) with a field the JSON side ignores
+type Span struct {
+	Low    int
+	hidden int
+	High   int
+}
 
 type NullB struct {
 	Valid bool
@@ -55,6 +63,7 @@ type C struct {
 	Title string
 	Pages int
 	Owner IdA
+	Sp    Span
 }
 
 // link table with a guard
@@ -138,6 +147,25 @@ func TestGovcHarness_Placeholders(t *testing.T) {
 			ti.writable = append(ti.writable, name)
 		}
 		schema[gen.SQLTableName(ta.TableName())] = ti
+	}
+	// composite columns: the schema's CREATE TYPE lists as many fields as the converters write and expect
+	schemaSQL := gen.WriteDeclarations(gensql.Generate(ana))
+	if m := regexp.MustCompile(`CREATE TYPE Span AS \(([^)]*)\);`).FindStringSubmatch(schemaSQL); m == nil {
+		t.Fatalf("no CREATE TYPE for the composite Span:\n%s", schemaSQL)
+	} else {
+		cases++
+		nSchema := len(strings.Split(m[1], ","))
+		vm := regexp.MustCompile(`func \(s Span\) Value\(\)[^}]*fmt\.Appendf\(nil, "\(([^)]*)\)"`).FindStringSubmatch(code)
+		sm := regexp.MustCompile(`func \(s \*Span\) Scan\([^{]*\{[^}]*\}[^}]*if len\(fields\) != (\d+)`).FindStringSubmatch(code)
+		if vm == nil || sm == nil {
+			t.Fatalf("converters of the composite Span not recognised in the generated code")
+		}
+		nValue := len(strings.Split(vm[1], ","))
+		nScan, _ := strconv.Atoi(sm[1])
+		if nSchema != nValue || nSchema != nScan {
+			fmt.Printf("GOVC-FAIL {\"composite\":\"Span\",\"schema_fields\":%d,\"value_fields\":%d,\"scan_fields\":%d}\n", nSchema, nValue, nScan)
+			t.Errorf("composite Span: the schema declares %d fields, Value() writes %d, Scan() expects %d", nSchema, nValue, nScan)
+		}
 	}
 	reTable := regexp.MustCompile(`(?i)\b(?:FROM|INTO|UPDATE)\s+(\w+)`)
 	reCmp := regexp.MustCompile(`(\w+)\s*(?:=|IS NOT DISTINCT FROM)\s*(?:ANY\()?\$\d+`)
